@@ -293,7 +293,7 @@ func FuzzC01Serialize(f *testing.F) {
 // (ids produced by real clients), and the code's Verify against them.
 func TestC01ReferenceAgainstRealEvents(t *testing.T) {
 	col := ev.For("C01")
-	files := []string{"/repo/testdata/events_valid.jsonl", "/repo/testdata/clienteventmsgs_valid.jsonl", "/repo/testdata/servereventmsgs_valid.jsonl"}
+	files := []string{hx.RepoDir() + "/testdata/events_valid.jsonl", hx.RepoDir() + "/testdata/clienteventmsgs_valid.jsonl", hx.RepoDir() + "/testdata/servereventmsgs_valid.jsonl"}
 	n := 0
 	for _, fn := range files {
 		b, err := os.ReadFile(fn)
